@@ -774,3 +774,155 @@ def check_module_trees(P, R, modules, rule="COVER.tree"):
             else:
                 R.undecided(rule, f.key, what, why)
     return n
+
+
+# ---------------------------------------------------------------------------------------------------------------------------
+# log-sum-exp written by hand
+# ---------------------------------------------------------------------------------------------------------------------------
+def lse_evidence(P, f, depth=0):
+    """Does f compute a log-sum-exp of its array argument?  Structural evidence, all of it needed:
+      - what it returns is reference + log / log1p of a sum (the logarithm is taken of an accumulated quantity),
+      - every exponential in the function is taken of a *difference* (value minus a reference maximum) - never of raw values,
+      - the reference is a maximum (np.maximum / max / amax) of the values,
+    Returns (True, reason) / (False, reason)."""
+    from ..dataflow import cone, get_defuse
+
+    du = get_defuse(f, P)
+    rets = [r for r in walk_no_nested(f.node) if isinstance(r, ast.Return) and r.value is not None]
+    if not rets:
+        return False, "no return value"
+    name = lambda c: (c.func.attr if isinstance(c.func, ast.Attribute) else getattr(c.func, "id", ""))
+    exps = [c for c in walk_no_nested(f.node) if isinstance(c, ast.Call) and name(c) in ("exp", "expm1", "exp2")]
+    if not exps:
+        return False, "no exponential"
+
+    MAXES, MINS = ("maximum", "max", "amax", "nanmax", "fmax"), ("minimum", "min", "amin", "nanmin", "fmin")
+
+    def subtrahends(e, st, hops=0):
+        """the expressions subtracted inside e when e is a difference (following names); None when e is not a difference"""
+        if isinstance(e, ast.BinOp) and isinstance(e.op, ast.Sub):
+            return [(e.right, st)]
+        if isinstance(e, ast.UnaryOp) and isinstance(e.op, ast.USub):
+            # -(a - b) = b - a, -|a - b|
+            inner = subtrahends(e.operand, st, hops)
+            if inner is None:
+                return None
+            if isinstance(e.operand, ast.BinOp):
+                return [(e.operand.left, st)]
+            return inner
+        if isinstance(e, ast.Call) and name(e) == "subtract" and len(e.args) >= 2:
+            return [(e.args[1], st)]
+        if isinstance(e, ast.Call) and name(e) in ("abs", "absolute", "fabs") and e.args:
+            inner = subtrahends(e.args[0], st, hops)
+            return [] if inner is not None else None  # |a - b|: sign decided by the caller's minus
+        if isinstance(e, ast.Call) and name(e) in ("where", "minimum", "nan_to_num") and e.args:
+            outs = [subtrahends(a, st, hops) for a in e.args]
+            outs = [o for o in outs if o is not None]
+            return [x for o in outs for x in o] if outs else None
+        if isinstance(e, ast.Subscript):
+            return subtrahends(e.value, st, hops)
+        if isinstance(e, ast.Name) and hops < 3:
+            rd = du.reaching(st, e.id)
+            vals = []
+            for d in rd:
+                v = d.value
+                if v is None or d.how not in ("assign", "aug", "substore", "unpack"):
+                    continue
+                if d.how == "unpack" and isinstance(v, ast.Tuple) and d.index is not None and d.index < len(v.elts):
+                    v = v.elts[d.index]
+                if isinstance(v, ast.Call) and name(v) in ("zeros", "zeros_like", "empty", "empty_like"):
+                    continue
+                vals.append((v, d.stmt))
+            if not vals:
+                return None
+            outs = [subtrahends(v, s_, hops + 1) for v, s_ in vals]
+            if any(o is None for o in outs):
+                return None
+            return [x for o in outs for x in o]
+        return None
+
+    def is_maximum(e, st, hops=0):
+        """e is (a name bound to) the result of a maximum over the values - not of a minimum"""
+        if isinstance(e, ast.Subscript):
+            return is_maximum(e.value, st, hops)
+        if isinstance(e, ast.Call):
+            if name(e) in MAXES:
+                return True
+            if name(e) in MINS:
+                return False
+            if name(e) in ("where",) and len(e.args) == 3:
+                return any(is_maximum(a, st, hops) for a in e.args[1:])
+            return False
+        if isinstance(e, ast.Name) and hops < 4:
+            rd = du.reaching(st, e.id)
+            got = []
+            for d in rd:
+                v = d.value
+                if v is None:
+                    continue
+                if d.how == "unpack" and isinstance(v, ast.Tuple) and d.index is not None and d.index < len(v.elts):
+                    v = v.elts[d.index]
+                if isinstance(v, ast.Call) and name(v) in ("full", "full_like", "zeros", "zeros_like", "empty"):
+                    continue  # the initial value of a running maximum
+                got.append(is_maximum(v, d.stmt, hops + 1))
+            return bool(got) and all(got)
+        return False
+
+    def is_difference(e, st, hops=0):
+        return subtrahends(e, st, hops) is not None
+
+    for c in exps:
+        subs = subtrahends(c.args[0], du.stmt_of(c)) if c.args else None
+        if subs is None:
+            return False, f"`{src(c)[:40]}` exponentiates a value that is not a difference from a reference: it underflows / overflows in the tails"
+        for sub_e, sub_st in subs:
+            if not is_maximum(sub_e, sub_st):
+                return False, f"`{src(c)[:40]}`: what is subtracted before exponentiating (`{src(sub_e)[:30]}`) is not the maximum of the values: the exponent can be positive and overflow"
+    has_max = any(isinstance(c, ast.Call) and name(c) in ("maximum", "max", "amax", "nanmax", "fmax") for c in walk_no_nested(f.node))
+    if not has_max:
+        return False, "the reference subtracted before exponentiating is not a maximum of the values"
+    n_log = 0
+    for r in rets:
+        if isinstance(r.value, (ast.Dict, ast.Tuple)):
+            continue  # a partial state (maximum, scaled sum) handed to the next level of a tree reduction
+        cn = cone(du, r.value, r, interproc=False)
+        has_log = any(isinstance(x, ast.Call) and name(x) in ("log", "log1p") for x in cn.nodes)
+        has_exp = any(x in exps for x in cn.nodes)
+        if not has_log and not has_exp:
+            continue  # passes its input on (meta computation, a single term)
+        if not has_log:
+            return False, "a returned value depends on the exponentials but no logarithm is taken: it is not reference + log(sum)"
+        if not has_exp:
+            return False, "the returned value does not depend on the exponentials"
+        n_log += 1
+    if n_log == 0:
+        return False, "no returned value is reference + log(sum)"
+    return True, "log-sum-exp: exponentials of differences from a running / block maximum, one logarithm of the accumulated sum"
+
+
+def check_lse_functions(P, R, modules, rule="LOGDOM.lse"):
+    """Every function of the modules that takes a logarithm of a sum of exponentials does it as a log-sum-exp (lse_evidence)."""
+    from ..dataflow import cone, get_defuse
+    n = 0
+    for f in P.all_funcs(modules):
+        nm = lambda c: (c.func.attr if isinstance(c.func, ast.Attribute) else getattr(c.func, "id", ""))
+        calls = [c for c in walk_no_nested(f.node) if isinstance(c, ast.Call)]
+        exps = [c for c in calls if nm(c) in ("exp", "exp2")]
+        logs = [c for c in calls if nm(c) in ("log", "log1p")]
+        if not exps or not logs:
+            continue
+        du = get_defuse(f, P)
+        # the logarithm is taken of something that depends on the exponentials
+        dep = False
+        for lg in logs:
+            if lg.args:
+                cn = cone(du, lg.args[0], du.stmt_of(lg), interproc=False)
+                if any(x in exps for x in cn.nodes):
+                    dep = True
+        if not dep:
+            continue
+        n += 1
+        ok, why = lse_evidence(P, f)
+        R.check(ok, rule, f.key, "log of a sum of exponentials", why, f"{f.qualname} takes the logarithm of a sum of exponentials but not as a log-sum-exp: {why}", f.node.lineno)
+    R.ok(rule, "package", f"{n} hand-written log-sum-exp function(s) in {', '.join(modules)}", "")
+    return n
